@@ -143,6 +143,17 @@ def r01_2(run):
             pieces = list(arg.args[0].elts)
         elif dotted(w.func) == 'self.sendLine':
             pieces = [arg, ast.Constant(value=b'\r\n')]
+        if pieces is None and isinstance(arg, ast.IfExp):
+            # a choice between payloads: each alternative has to be <command> + CRLF; one that is not writes some commands without
+            # (or with something other than) the terminator the property fixes
+            alts = [_resolve_name(defs, x) for x in (arg.body, arg.orelse)]
+            plain = [x for x in alts if not (isinstance(x, ast.BinOp) and isinstance(x.op, ast.Add) and const(x.right) in (b'\r\n', '\r\n'))]
+            run.ob('R01.2', mi, w, 'every alternative of the written payload is <command> + CRLF', not plain, slot='payload-alternatives',
+                   message='for some commands (%s) the payload written is %s, not the command text plus CRLF: the property fixes "verbatim plus CRLF" for every command, '
+                           'whatever it ends in' % (src(arg.test)[:40], [src(x)[:30] for x in plain]))
+            if plain:
+                continue
+            pieces = [alts[0].left, alts[0].right]
         if pieces is None or len(pieces) != 2:
             run.ob('R01.2', mi, w, 'written payload is <command> + CRLF', None,
                    message='payload shape not recognised: %s' % src(arg))
@@ -889,6 +900,7 @@ RULES = [
 from ..selftest import M  # noqa: E402
 F = 'txtorcon/torcontrolprotocol.py'
 MUTANTS = [
+    M('crlf-only-when-missing', F, "            data = cmd + b'\\r\\n'\n", "            data = cmd if cmd.endswith(b'\\r\\n') else cmd + b'\\r\\n'\n", ['R01.2']),
     M('linecb-gets-stuffed-line', F, "        if line.startswith('.'):\n            line = line[1:]\n        if self._wants_lines():\n            self.command[2](line)\n", "        if self._wants_lines():\n            self.command[2](line)\n            return None\n        if line.startswith('.'):\n            line = line[1:]\n        if False:\n            pass\n", ['R01.12/R13.1']),
     M('empty-status-line-dropped', F, "sl = len(line) > 3 and line[3] == ' '", "sl = len(line) > 4 and line[3] == ' '", ['R01.6']),
     M('code-200-not-2xx-for-linecb', F, "            if self.code >= 200 and self.code < 300 and \\\n               self.command and self.command[2] is not None:", "            if self.code > 200 and self.code < 300 and \\\n               self.command and self.command[2] is not None:", ['R01.8']),
